@@ -497,12 +497,39 @@ def run_sat_monitor(ctx, worlds, results, stream="M-sat"):
         ctx.broken.append({"kind": "monitor", "name": stream, "detail": str(e)[-800:]})
 
 
+def scale_world(w, k):
+    """the same world with every time quantity multiplied by k; flagged `units`, so that the adapter expresses the multiples
+    of 1000 in ms — strategies, deadlines, releases and earlier placements of one world then carry DIFFERENT units"""
+    w = json.loads(json.dumps(w))
+    w["now"] *= k
+    w["horizon"] *= k
+    c = w["cfg"]
+    c["lookahead"] *= k
+    if c.get("sched_runtime", 0) > 0:
+        c["sched_runtime"] *= k
+    for t in w["tasks"]:
+        for s_ in t["strats"]:
+            s_[0] *= k
+        t["deadline"] *= k
+        if t.get("release", -1) >= 0:
+            t["release"] *= k
+        if "prev" in t:
+            t["prev"][2] *= k
+        for f in ("remaining", "completed"):
+            if f in t:
+                t[f] *= k
+    w["units"] = k
+    return w
+
+
 def common_prelude(ctx, props_file, n_quick, n_thorough, profile="mixed", extra_reserve=0, extra_dispatch=0):
     ctx.fingerprint(FILES)
     ctx.translate(["Ilp"])
     built = ctx.build(props_file, deps=["Model/IlpModel.v"])
     n = n_quick if ctx.tier == "quick" else n_thorough
     worlds = [gen_world(ctx.rng, profile) for _ in range(n)]
+    # every sixth world on a different time grain with mixed units (microseconds next to milliseconds)
+    worlds = [scale_world(w, [500, 250, 500, 100][(i // 6) % 4]) if i % 6 == 5 else w for i, w in enumerate(worlds)]
     worlds += [gen_reserve_world(ctx.rng) for _ in range(extra_reserve if ctx.tier == "quick" else 10 * extra_reserve)]
     worlds += [gen_dispatch_world(ctx.rng) for _ in range(extra_dispatch if ctx.tier == "quick" else 10 * extra_dispatch)]
     results = run_worlds(worlds)
